@@ -477,36 +477,99 @@ pub fn g_aauth(a: &AAuth, syms: &mut SymbolTable) -> G {
     )
 }
 
+#[derive(Clone, Debug, PartialEq)]
+pub enum QObs {
+    Facts(Vec<(String, Vec<V>)>),
+    Fail,
+    Skip,
+}
 pub struct ARun {
     pub outcome: Outcome,
     pub facts: Option<Vec<DFact>>,
     pub iterations: u64,
+    /// asked after authorize(): rule, Authorizer::query result, Authorizer::query_all result
+    pub queries: Vec<(ARule, QObs, QObs)>,
+}
+
+pub fn v_of_builder_term(t: &builder::Term) -> V {
+    match t {
+        builder::Term::Variable(n) => V::Str(format!("${}", n)),
+        builder::Term::Parameter(n) => V::Str(format!("{{{}}}", n)),
+        builder::Term::Integer(i) => V::Int(*i),
+        builder::Term::Str(s) => V::Str(s.clone()),
+        builder::Term::Date(d) => V::Date(*d),
+        builder::Term::Bytes(b) => V::Bytes(b.clone()),
+        builder::Term::Bool(b) => V::Bool(*b),
+        builder::Term::Set(s) => V::Set(s.iter().map(v_of_builder_term).collect()),
+        builder::Term::Null => V::Null,
+        builder::Term::Array(a) => V::Array(a.iter().map(v_of_builder_term).collect()),
+        builder::Term::Map(m) => V::Map(
+            m.iter()
+                .map(|(k, v)| {
+                    (
+                        match k {
+                            builder::MapKey::Integer(i) => K::Int(*i),
+                            builder::MapKey::Str(s) => K::Str(s.clone()),
+                            builder::MapKey::Parameter(s) => K::Str(format!("{{{}}}", s)),
+                        },
+                        v_of_builder_term(v),
+                    )
+                })
+                .collect(),
+        ),
+    }
+}
+
+fn qobs_of(r: Result<Vec<builder::Fact>, biscuit_auth::error::Token>) -> QObs {
+    match r {
+        Ok(fs) => {
+            let mut v: Vec<(String, Vec<V>)> = fs
+                .iter()
+                .map(|f| (f.predicate.name.clone(), f.predicate.terms.iter().map(|t| v_of_builder_term(t).sorted()).collect()))
+                .collect();
+            v.sort();
+            QObs::Facts(v)
+        }
+        Err(_) => QObs::Fail,
+    }
 }
 
 /// Builds token and authorizer, runs authorize, reads the world back.
 pub fn run_auth(blocks: &[ABlock], a: &AAuth, limits: (u64, u64), keys: &Keys, rng: &mut Rng) -> ARun {
+    run_auth_q(blocks, a, limits, keys, rng, &[])
+}
+
+/// run_auth, then Authorizer::query and query_all for each of the given rules.
+pub fn run_auth_q(blocks: &[ABlock], a: &AAuth, limits: (u64, u64), keys: &Keys, rng: &mut Rng, queries: &[ARule]) -> ARun {
     let r = std::panic::catch_unwind(std::panic::AssertUnwindSafe(|| {
         let token = match build_token(blocks, keys, rng) {
             Ok(t) => t,
-            Err(e) => return ARun { outcome: Outcome::Other(format!("build: {:?}", e)), facts: None, iterations: 0 },
+            Err(e) => return ARun { outcome: Outcome::Other(format!("build: {:?}", e)), facts: None, iterations: 0, queries: vec![] },
         };
         // through bytes, as a verifier would
         let bytes = token.to_vec().unwrap();
         let token = Biscuit::from(&bytes, keys.root.public()).unwrap();
         let ab = match build_authorizer(a, keys, limits) {
             Ok(x) => x,
-            Err(e) => return ARun { outcome: Outcome::Other(format!("abuild: {:?}", e)), facts: None, iterations: 0 },
+            Err(e) => return ARun { outcome: Outcome::Other(format!("abuild: {:?}", e)), facts: None, iterations: 0, queries: vec![] },
         };
         let mut az = match ab.build(&token) {
             Ok(x) => x,
-            Err(e) => return ARun { outcome: Outcome::Other(format!("load: {:?}", e)), facts: None, iterations: 0 },
+            Err(e) => return ARun { outcome: Outcome::Other(format!("load: {:?}", e)), facts: None, iterations: 0, queries: vec![] },
         };
         let res = az.authorize();
         let outcome = outcome_of(&res);
         let facts = world_facts(&az);
-        ARun { outcome, facts, iterations: az.iterations() }
+        let iterations = az.iterations();
+        let mut qres = vec![];
+        for q in queries {
+            let o1 = qobs_of(az.query(b_rule(q, &keys.ext_pub)));
+            let o2 = qobs_of(az.query_all(b_rule(q, &keys.ext_pub)));
+            qres.push((q.clone(), o1, o2));
+        }
+        ARun { outcome, facts, iterations, queries: qres }
     }));
-    r.unwrap_or(ARun { outcome: Outcome::Panic, facts: None, iterations: 0 })
+    r.unwrap_or(ARun { outcome: Outcome::Panic, facts: None, iterations: 0, queries: vec![] })
 }
 
 /// Same as run_auth, but the authorizer that is evaluated is a clone of the built one.
@@ -547,17 +610,37 @@ pub fn g_acase(blocks: &[ABlock], a: &AAuth, limits: (u64, u64), run: &ARun) -> 
     a.rules.iter().for_each(|r| collect_rule(r, &mut strings));
     a.checks.iter().for_each(|ck| ck.queries.iter().for_each(|r| collect_rule(r, &mut strings)));
     a.policies.iter().for_each(|p| p.queries.iter().for_each(|r| collect_rule(r, &mut strings)));
+    for (q, o1, o2) in &run.queries {
+        collect_rule(q, &mut strings);
+        for o in [o1, o2] {
+            if let QObs::Facts(fs) = o {
+                fs.iter().for_each(|f| f.1.iter().for_each(|v| v.strings(&mut strings)));
+            }
+        }
+    }
     let mut syms = table_for(&strings);
     let res = G::T(vec![
         g_outcome(&run.outcome),
         gopt(run.facts.as_ref().map(|fs| G::L(fs.iter().map(g_dfact).collect()))),
     ]);
+    let g_qobs = |o: &QObs, syms: &mut SymbolTable| match o {
+        QObs::Facts(fs) => c("QFacts", vec![G::L(fs.iter().map(|f| g_fact(f, syms)).collect())]),
+        QObs::Fail => c0("QFail"),
+        QObs::Skip => c0("QSkip"),
+    };
+    let qs = G::L(
+        run.queries
+            .iter()
+            .map(|(q, o1, o2)| G::T(vec![g_arule(q, &mut syms), g_qobs(o1, &mut syms), g_qobs(o2, &mut syms)]))
+            .collect(),
+    );
     G::T(vec![
         G::L(blocks.iter().map(|b| g_ablock(b, &mut syms)).collect()),
         g_aauth(a, &mut syms),
         G::T(vec![G::N(limits.0), G::N(limits.1)]),
         G::L(vec![]),
         res,
+        qs,
     ])
 }
 
@@ -621,6 +704,16 @@ impl AGen {
             r.exprs.push(vec![Op::Val(V::Bool(self.d.rng.chance(4, 5)))]);
         }
         ARule { rule: r, scopes: self.scopes(3) }
+    }
+    /// a rule for Authorizer::query / query_all: head variables all bound by the body
+    pub fn probe(&mut self) -> ARule {
+        let mut r = self.arule(true);
+        r.rule.head.name = "probe".into();
+        r.rule.exprs.clear();
+        if self.d.rng.chance(1, 2) {
+            r.scopes.clear();
+        }
+        r
     }
     pub fn check(&mut self) -> ACheck {
         let kind = match self.d.rng.below(5) {
